@@ -144,7 +144,37 @@ func ruleMoveNonNil(c *Ctx, m *heapModel) {
 					}
 				}
 				if !good && why == "" {
-					why = "nothing on the path says it is non-nil"
+					// stored first and corrected afterwards: on every way from here to a return on which the
+					// parameter is nil, the field is given a function before the return
+					corrected := func(y ssa.Instruction) bool {
+						st2, ok := y.(*ssa.Store)
+						if !ok || st2 == st || sym(st2.Addr) != sym(st.Addr) {
+							return false
+						}
+						switch st2.Val.(type) {
+						case *ssa.Function, *ssa.MakeClosure:
+							return true
+						}
+						return false
+					}
+					w := walkFromE(st, false, corrected, func(iff *ssa.If, succ int) bool {
+						cm, ok := edgeCmp(iff, succ)
+						return ok && cm.X == ssa.Value(x) && isNilConst(cm.Y) && cm.Op == token.NEQ // non-nil there: nothing to correct
+					})
+					leaks := false
+					for _, y := range w.order {
+						if _, isRet := y.(*ssa.Return); isRet {
+							leaks = true
+						}
+						if _, isCall := y.(ssa.CallInstruction); isCall {
+							leaks = true // anything may call it before the correction
+						}
+					}
+					if !leaks {
+						good = true
+					} else {
+						why = "nothing on the path says it is non-nil"
+					}
 				}
 			case *ssa.UnOp:
 				// a copy from another queue's field (Clone-like): as good as its source
@@ -779,7 +809,7 @@ func ruleSetArgFlow(c *Ctx) {
 				if ap, ok := isBuiltinCall(x, "append"); ok {
 					return onto(ap.Call.Args[0], d+1)
 				}
-				if cal := staticCallee(&x.Call); cal != nil && len(x.Call.Args) > 0 && (cal.Name() == "Grow" || cal.Name() == "Clip") {
+				if cal := staticCallee(&x.Call); cal != nil && len(x.Call.Args) > 0 && cal.Pkg != nil && cal.Pkg.Pkg.Path() == "slices" && (cal.Name() == "Grow" || cal.Name() == "Clip" || cal.Name() == "AppendSeq") {
 					return onto(x.Call.Args[0], d+1)
 				}
 			case *ssa.ChangeType:
@@ -1637,10 +1667,39 @@ func ruleGuardSubject(c *Ctx) {
 			}
 			ln, isLen := isBuiltinCall(cm.X, "len")
 			k, isK := constInt(cm.Y)
-			if !isLen || !isK || !((cm.Op == token.NEQ && k == 0) || (cm.Op == token.GTR && k == 0) || (cm.Op == token.GEQ && k == 1)) {
+			if !isLen || !isK {
+				continue
+			}
+			notEmpty := (cm.Op == token.NEQ && k == 0) || (cm.Op == token.GTR && k == 0) || (cm.Op == token.GEQ && k == 1)
+			// "more than one" / "not exactly one" in the place of "not empty"
+			offByOne := (cm.Op == token.NEQ && k > 0) || (cm.Op == token.GTR && k > 0) || (cm.Op == token.GEQ && k > 1)
+			if !notEmpty && !offByOne {
 				continue
 			}
 			v := ln.Call.Args[0]
+			if offByOne {
+				_, isParam := v.(*ssa.Parameter)
+				_, f := loadedField(v)
+				_, isSlice := v.Type().Underlying().(*types.Slice)
+				blk := iff.Block().Succs[i]
+				if isParam || f != nil || !isSlice || len(blk.Preds) != 1 {
+					continue
+				}
+				attaches := false
+				for _, in2 := range blk.Instrs {
+					for _, op := range in2.Operands(nil) {
+						if op != nil && *op == v {
+							attaches = true
+						}
+					}
+				}
+				if attaches {
+					n++
+					c.sawFn(fnName(fn))
+					c.bad("R-GUARD-SUBJECT", fmt.Sprintf("%s:block guarded by len(%s) #%d", fnName(fn), ksym(v), n), iff.Cond.Pos(), fmt.Sprintf("the block that attaches %s is entered when len %s %d, not whenever it is not empty: a context of exactly %d line(s) is lost (or an empty one attached)", ksym(v), cm.Op, k, k))
+				}
+				continue
+			}
 			if _, isSlice := v.Type().Underlying().(*types.Slice); !isSlice {
 				continue
 			}
@@ -1690,6 +1749,7 @@ func ruleStaleAfterEdit(c *Ctx) {
 	for _, fn := range c.P.PkgFuncs("mdiff") {
 		fn := fn
 		n := 0
+		staleAcrossBlocks(c, fn, &n)
 		for _, b := range fn.Blocks {
 			cleared := map[string]ssa.Instruction{}
 			type ptr struct {
